@@ -228,4 +228,10 @@ class NumpyBackendProvider(BackendProvider):
                 [self.kg_asarray(x) if isinstance(x, list) else x for x in arr],
                 dtype=object
             )
+            if arr.ndim > 1:
+                # a rectangular object array keeps nested lists as Python lists in its
+                # cells ([[1 [2 [3]]] [[[4]] 5]] is 2x2): make them arrays like everywhere else
+                for idx in self._np.ndindex(arr.shape):
+                    if isinstance(arr[idx], list):
+                        arr[idx] = self.kg_asarray(arr[idx])
         return arr
